@@ -362,7 +362,7 @@ def _run(prop, tier, seed, replay, wd):
     shutil.rmtree(os.path.join(E.VERIF, "replays", prop), ignore_errors=True)
 
     # ---- A: every enumerated document sequence in every presentation -------------------
-    cfgs = {"quick": [("C04_DocsL", "C04_RangeL", 2), ("C04_DocsP", "C04_RangeP", 3)], "thorough": [("C04_Docs3", "C04_Range3", 2), ("C04_DocsL", "C04_RangeL", 3)]}[tier]
+    cfgs = {"quick": [("C04_DocsL", "C04_RangeL", 2), ("C04_DocsP", "C04_RangeP", 3), ("C06_DocsRep", "WholeRange", 3)], "thorough": [("C04_Docs3", "C04_Range3", 2), ("C04_DocsL", "C04_RangeL", 3), ("C06_DocsRep", "WholeRange", 4)]}[tier]
     bad_hist = []
     lookup_table = None
     replayed = 0
@@ -431,9 +431,11 @@ def _run(prop, tier, seed, replay, wd):
     tid = 1000000
     for docs, pres in bad_hist:
       if True:
-        key = pres.split(":")[1] if pres.startswith("key:") else None
-        jobs.append((tid, docs, "key" if key else pres, key))
-        info[tid] = (docs, "key" if key else pres, key)
+        # "key:k" / "key_same:k" -> presentation key / key_same under that key; "key_unsafe" is always built under k
+        key = pres.split(":")[1] if ":" in pres else "k" if pres == "key_unsafe" else None
+        pres = pres.split(":")[0]
+        jobs.append((tid, docs, pres, key))
+        info[tid] = (docs, pres, key)
         tid += 1
     with mp.Pool(16, initializer=_init, initargs=([],)) as pool:
         traces = pool.map(_record_one, jobs, chunksize=max(1, len(jobs) // 128 or 1))
